@@ -74,7 +74,9 @@ def record_all(seed=0):
         with Recorder(module, table) as r:
             raised = None
             try:
-                fn()
+                from . import common
+                with common.watchdog():
+                    fn()
             except Exception as e:
                 raised = '%s: %s' % (type(e).__name__, e)
         out.append(dict(driver=driver, D=D, events=r.events, raised=raised, bound=r.bound))
